@@ -22,7 +22,8 @@ def gen_session_cfg(rng, idx):
         big = qt in (proto.T_NULL, proto.T_PRIVATE, proto.T_TXT, proto.T_SRV, proto.T_MX)
         frag = rng.choice(FRAGS if big else [2, 3, 7, 50, 100, 120]) if rng.random() < 0.8 else rng.randint(2, 2000 if big else 130)
         clients.append({"qtype": qt, "down": down, "up": rng.choice(["Base32", "Base64", "Base64u", "Base128"]),
-                        "lazy": rng.random() < 0.6, "frag": frag, "edns0": rng.random() < 0.5})
+                        "lazy": rng.random() < 0.6, "frag": frag, "edns0": rng.random() < 0.5,
+                        "raw": rng.random() < 0.12})
     return {"clients": clients, "nops": rng.randint(60, 160), "check_ip_off": rng.random() < 0.3,
             "ns_ip": rng.choice([None, None, "192.0.2.77"]), "wild": rng.random() < 0.25,
             "rseed": rng.getrandbits(32)}
@@ -81,6 +82,10 @@ def run_session(tag, cfg, seed, ops_filter=None, redeliver=True, setup_only=Fals
         if cc["lazy"]:
             mc.option(b"l")
         mc.set_frag(cc["frag"])
+        if cc.get("raw"):
+            # a session that switched to raw UDP mode but keeps talking DNS as well (a hostile or odd client may)
+            mc.raw_login()
+            k.run(k.now + 50000)
         mc.cc = cc
         s.mcs.append(mc)
     s.server_tun_ip = sim.tun_net.split("/")[0]
@@ -91,7 +96,7 @@ def run_session(tag, cfg, seed, ops_filter=None, redeliver=True, setup_only=Fals
     if setup_only:
         s.ok = True
         return s
-    ops = ["ping"] * 6 + ["up"] * 3 + ["down"] * 5 + ["burst", "idle", "id0", "aux", "hs", "badip", "downsoon", "upsmall"]
+    ops = ["ping"] * 6 + ["up"] * 3 + ["down"] * 5 + ["burst", "idle", "id0", "aux", "hs", "badip", "downsoon", "upsmall", "rawop"]
     if redeliver:
         ops += ["dup"] * 3
     if ops_filter:
@@ -193,6 +198,19 @@ def do_op(s, mc, op, rng):
             mc.ask(proto.msg_version(mc.domain, mc.new_cmc(), rng.choice([0x00000501, 0x00000502 ^ 0x100])), timeout_us=300000)
         else:
             mc.ask(proto.msg_setfrag(mc.domain, mc.userid, rng.choice([0, 1]), mc.new_cmc()), timeout_us=300000)
+    elif op == "rawop":
+        if mc.cc.get("raw"):
+            w = rng.randrange(3)
+            if w == 0:
+                mc.raw_ping()
+            elif w == 1:
+                f = mk_frame(s, mc, "up", rng, size=60)
+                s.sent_up.append(f)
+                mc.raw_data(f)
+            else:
+                mc.raw_login()
+            k.run(k.now + rng.choice([1000, 30000]))
+        mc.ping(wait_us=20000)
     elif op == "badip":
         other = rng.choice([u for u in range(16) if u != mc.userid])
         if rng.random() < 0.5:
